@@ -341,6 +341,12 @@ impl Check for RwaCheck {
     fn components(&self) -> serde_json::Value {
         serde_json::json!({"real": ["stellar_tokens::rwa::RWA::* behind a wrapper", "pausable", "fungible Base (allowances, update)"], "stub": ["Compliance (scripted can_*, durable notification counters, hook trap)", "IdentityVerifier (per-account pass/fail, recovery map)", "Wallet"]})
     }
+    fn dup_ok(&self, _s: &Step) -> bool {
+        true
+    }
+    fn reorder_ok(&self) -> bool {
+        true
+    }
     fn property_of(&self, check: &str) -> std::vec::Vec<&'static str> {
         if check.starts_with("events.") || check.starts_with("conserve.") {
             vec!["C01"]
